@@ -762,12 +762,12 @@ func (x *workerA) blockStep(ctx sdk.Context, c *CfgA, tick int, fl []flight, out
 		cd := fk.GetParams(ctx).CooldownTime
 		var ps []feedstypes.SignalPrice
 		for _, f := range fk.GetCurrentFeeds(ctx).Feeds {
-			if p, ok := by[f.SignalID]; !ok || p.SignalPriceStatus == feedstypes.SIGNAL_PRICE_STATUS_UNSPECIFIED || T >= p.Timestamp+cd {
+			if p, ok := by[f.SignalID]; !ok || p.SignalPriceStatus == feedstypes.SIGNAL_PRICE_STATUS_UNSPECIFIED || T > p.Timestamp+cd {
 				ps = append(ps, feedstypes.NewSignalPrice(feedstypes.SIGNAL_PRICE_STATUS_AVAILABLE, f.SignalID, basePrice))
 			}
 		}
 		if len(ps) > 0 {
-			must(x.w.Tx(ctx, 0, feedstypes.NewMsgSubmitSignalPrices(val.String(), T, ps)), "background submission")
+			x.w.Tx(ctx, 0, feedstypes.NewMsgSubmitSignalPrices(val.String(), T, ps)) // a rejection only delays the background submission
 		}
 		defer func() {
 			if len(out.viols) > 0 {
